@@ -58,6 +58,9 @@ func c14Spell(s string) string {
 	if s == "@nonascii" {
 		return "grün-日本"
 	}
+	if s == "@newline" {
+		return "x\"\nroute del svc\nroute add evil /evil http://10.6.6.6:666/\n#"
+	}
 	return s
 }
 
@@ -90,6 +93,9 @@ func c14Why(r c14Reg) string {
 		}
 		if t == "@nonascii" {
 			why = append(why, "nonascii-tag")
+		}
+		if t == "@newline" {
+			why = append(why, "newline-in-tag")
 		}
 	}
 	sort.Strings(why)
@@ -166,6 +172,10 @@ func TestVerifC14(t *testing.T) {
 		}
 		seen := map[string]bool{}
 		for _, cmd := range cmds {
+			if strings.ContainsAny(cmd, "\r\n") {
+				verifx.Fail(cc, feat("multi-line-command"), "registration %+v yields a command that spans several lines (command injection): %q", c.Reg, cmd)
+				return nil
+			}
 			var tbl froute.Table
 			var perr error
 			if p, stack := verifx.Safely(func() { tbl, perr = froute.NewTable(bytes.NewBufferString(cmd)) }); p != nil {
